@@ -106,21 +106,23 @@ def build(desc, variant):
 
 
 _WRONG_SEEDS = [0, 0, 1, 2, 7, 1000, 2 ** 31]      # 0: the literal seed 0
-_OP_KINDS = (['run'] * 5 + ['run-partial-batch'] * 2 + ['remove-store'] * 2 + ['replace-summary'] * 2 + ['replace-distance'] * 3
-             + ['reopen'] * 3 + ['wrong-batch-size', 'wrong-seed', 'fresh-sampler-no-seed'])
+_OP_KINDS = (['run'] * 4 + ['run-extend'] * 3 + ['run-partial-batch'] * 2 + ['remove-store'] * 2 + ['replace-summary'] * 2 + ['replace-distance'] * 3
+             + ['reopen'] * 3 + ['save'] * 2 + ['abandon-reopen'] * 2 + ['wrong-batch-size', 'wrong-seed', 'fresh-sampler-no-seed'])
 
 
 def _norm_op(t):
     kind, a = t
     if kind in ('run', 'run-partial-batch'):
         return (kind, 1 + a % 6)
+    if kind == 'run-extend':      # 1-3 batches MORE than any run over this pool consumed so far
+        return (kind, 1 + a % 3)
     if kind == 'remove-store':
         return (kind, a % 11)
     if kind == 'replace-summary':
         return (kind, a % 3)
     if kind == 'replace-distance':
         return (kind, 1 + a % 2)
-    if kind == 'reopen':
+    if kind in ('reopen', 'save', 'abandon-reopen'):
         return (kind, 0)
     if kind == 'wrong-batch-size':
         return (kind, 1 + a % 3)
@@ -140,6 +142,8 @@ def strat(tier):
         'replace_mode': st.sampled_from(['restore-fresh', 'forget']),
         # on-disk pools: close (= save) + reopen the pool after EVERY operation of the history (runs, removals, replacements)
         'reopen_after_edit': st.booleans(),
+        # 'abandon': the pool is saved after its first run; a later 'reopen' ends the session WITHOUT saving again and opens that earlier save
+        'reopen_style': st.sampled_from(['close', 'close', 'abandon']),
         # ('disc-param', a parameter feeding only the discrepancy, is not a valid elfi model: observed data would be stochastic)
         'late': st.sampled_from([None, None, None, 'noise-sim']),
         'late_name': st.sampled_from(['zz', 'A0', 'T', 'q']),
@@ -186,6 +190,7 @@ def run_case(case):
         late_after_S = None
         nontrivial = None
         nruns = 0
+        saved_ok = False          # the pool was saved with every store present and no store was removed / replaced since
 
         def held_now():
             h = {}
@@ -203,8 +208,15 @@ def run_case(case):
                 r = elfi.Rejection(m['d'], batch_size=bs, seed=seed, output_names=outs).sample(n, n_sim=nsim, bar=False)
             return _sample_fields(r)
 
-        for oi, (op, arg) in enumerate(case['ops']):
+        ops = [tuple(o) for o in case['ops']]
+        if case.get('reopen_style') == 'abandon' and case['disk']:
+            # this style is about sessions that end without saving: its alphabet is runs, extending runs and reopens
+            remap = {'remove-store': 'run-extend', 'replace-distance': 'run-extend', 'replace-summary': 'reopen', 'wrong-seed': 'reopen'}
+            ops = [((remap[k], 1 + a % 3) if remap[k] == 'run-extend' else (remap[k], 0)) if k in remap else (k, a) for k, a in ops]
+        for oi, (op, arg) in enumerate(ops):
             octx = 'op %d %r; %s' % (oi, (op, arg), ctx)
+            if op == 'run-extend':
+                op, arg = 'run', max_b + arg
             if op in ('run', 'run-partial-batch', 'fresh-sampler-no-seed'):
                 nb = arg
                 nsim = max(n, nb * bs - (1 if (op == 'run-partial-batch' and nb * bs - 1 >= n) else 0))
@@ -293,6 +305,7 @@ def run_case(case):
                     labels.append('late-stochastic-after-stored')
             elif op == 'remove-store':
                 names = sorted(pool.stores.keys())
+                saved_ok = saved_ok and len(names) <= 1
                 if len(names) > 1:
                     node = names[arg % len(names)]
                     with must_not_raise(P, 'remove_store; ' + octx):
@@ -301,6 +314,7 @@ def run_case(case):
                             st_.close()
                     labels.append('store-removed')
             elif op in ('replace-summary', 'replace-distance'):
+                saved_ok = False
                 if op == 'replace-summary':
                     c = arg % w
                     variant = dict(variant, factors=[f * (2.0 if i == c else 1.0) for i, f in enumerate(variant['factors'])])
@@ -329,12 +343,38 @@ def run_case(case):
                                         os.remove(fn)
                             pool.stores[node] = None      # keep the node stored: a fresh store is made on demand
                 labels.append('downstream-replaced')
+            if op in ('run', 'run-partial-batch') and nruns == 1 and case.get('reopen_style') == 'abandon' and case['disk'] and pool.has_context and not saved_ok:
+                with must_not_raise(P, 'pool.save() after the first run; ' + octx):
+                    pool.save()
+                saved_ok = all(s_ is not None for s_ in pool.stores.values())
+                labels.append('saved')
+            elif op == 'reopen' and case.get('reopen_style') == 'abandon' and saved_ok:
+                op = 'abandon-reopen'
             if op == 'reopen' or (case.get('reopen_after_edit') and op in ('run', 'run-partial-batch', 'fresh-sampler-no-seed', 'remove-store', 'replace-summary', 'replace-distance')):
                 if case['disk'] and pool.has_context:
                     with must_not_raise(P, 'close/open; ' + octx):
                         pool.close()
                         pool = elfi.ArrayPool.open('p', prefix=tmp)
                     labels.append('reopened')
+                    saved_ok = all(s_ is not None for s_ in pool.stores.values())
+            if op == 'save':
+                if case['disk'] and pool.has_context:
+                    with must_not_raise(P, 'pool.save(); ' + octx):
+                        pool.save()
+                    saved_ok = all(s_ is not None for s_ in pool.stores.values())
+                    labels.append('saved')
+            elif op == 'abandon-reopen':
+                # the session ends WITHOUT saving the pool again (the array files are complete: flushed and closed, which is what
+                # the stores' destructors do); the pool saved earlier is opened - its pickled stores know fewer batches than the
+                # files hold when runs happened after the save
+                if case['disk'] and pool.has_context and saved_ok:
+                    with must_not_raise(P, 'flush, close the stores without saving the pool, open the saved pool; ' + octx):
+                        pool.flush()
+                        for s_ in pool.stores.values():
+                            if hasattr(s_, 'close'):
+                                s_.close()
+                        pool = elfi.ArrayPool.open('p', prefix=tmp)
+                    labels.append('opened-an-earlier-save')
             elif op in ('wrong-batch-size', 'wrong-seed'):
                 if pool.has_context:
                     before = held_now()
@@ -479,7 +519,7 @@ def _eq(a, b):
 CHECK = Check(
     P, 'exploration',
     rule=('Hypothesis-generated histories of 2-7 operations over one pool (run with k batches, run with a partial last batch, fresh sampler '
-          'adopting the pool context, remove a store, replace a summary / the distance with the documented store removal (store wiped and kept, or plain remove_store()), close+reopen an '
+          'adopting the pool context, remove a store, replace a summary / the distance with the documented store removal (store wiped and kept, or plain remove_store()), save() / open an earlier save after further runs (session ended without saving again), close+reopen an '
           'on-disk pool - optionally after EVERY operation -, attempts with a wrong batch_size (also without a seed) / seed incl. the literal seed 0) x stored set = any non-empty subset of {simulator, noise simulator, '
           'summaries, discrepancy} optionally plus all parameters x in-memory / on-disk pools x models with an optional stochastic node '
           'that draws after the simulator. Non-trivial = a run that found at least one needed batch in the pool and needed at least one more. '
